@@ -18,7 +18,7 @@ BIGVAL = 1e30
 
 
 def build(arch: Dict[str, Any], *, fold_bn: bool = False, seed: int = 0, train_mode: bool = False,
-          cost=None, discrete_cost: bool = True, full_cost: bool = False, variant: str = "auto"):
+          cost=None, discrete_cost: bool = True, full_cost: bool = False, variant: str = "auto", example_batch: int = 0):
     """float64 GrammarNet + PIT wrapper.  Returns (original net (untouched copy), pit, x)."""
     from plinio.methods import PIT
     arch = norm_arch(arch)
@@ -53,8 +53,14 @@ def build(arch: Dict[str, Any], *, fold_bn: bool = False, seed: int = 0, train_m
             excl = []
     with warnings.catch_warnings():
         warnings.simplefilter("ignore")
-        pit = PIT(net, input_shape=input_shape(arch), fold_bn=fold_bn, exclude_names=excl,
-                  discrete_cost=discrete_cost, full_cost=full_cost, **kw)
+        if example_batch > 0:
+            # the user traces with a real mini-batch instead of a shape: every cost is per inference all the same
+            xe = torch.rand((example_batch,) + input_shape(arch), generator=gen) * 2 - 0.5
+            pit = PIT(net, input_example=xe, fold_bn=fold_bn, exclude_names=excl,
+                      discrete_cost=discrete_cost, full_cost=full_cost, **kw)
+        else:
+            pit = PIT(net, input_shape=input_shape(arch), fold_bn=fold_bn, exclude_names=excl,
+                      discrete_cost=discrete_cost, full_cost=full_cost, **kw)
     return ref, pit, x
 
 
